@@ -231,7 +231,7 @@ class Judge:
         depth = 2 if ctx.tier == "quick" else 3
         nvals = 0
         # cheap pass over EVERY value of the domain: arrays are tuples and do not alias the caller's lists
-        for val in values.enumerate_values(p.node, env, cap=256 if ctx.tier == "quick" else 1024):
+        for val in values.enumerate_values(p.node, env, cap=96 if ctx.tier == "quick" else 1024):
             if ref_serialize(env, p.node, val, False)[0] != "bytes":
                 continue
             for deserialized in (False, True):
